@@ -159,7 +159,27 @@ void VRun::exec(const VOpRec &o) {
             }
             int rc; bool bad_arg = su < 0;
             if (o.k == V_INIT_NUMB) { int scale = extreme ? (int) r.range(-320, 340) : (int) r.range(-3, 6), mlz = r.chance(1, 10) ? -1 : (int) r.range(0, 6); bad_arg = bad_arg || mlz < 0; rc = fe.call("cif_value_init_numb", [&]() { return cif_value_init_numb(t.v, val, su < 0 ? su : (su > 0 ? su : 0.0), scale, mlz); }); }
-            else { unsigned rule = r.chance(1, 10) ? 1 : (r.chance(1, 2) ? 19 : (unsigned) r.range(2, 99)); bad_arg = bad_arg || rule < 2; rc = fe.call("cif_value_autoinit_numb", [&]() { return cif_value_autoinit_numb(t.v, val, su < 0 ? su : (su > 0 ? su : 0.0), rule); }); }
+            else {
+                unsigned rule = r.chance(1, 10) ? 1 : (r.chance(1, 2) ? 19 : (unsigned) r.range(2, 99)); bad_arg = bad_arg || rule < 2;
+                // a third of the uncertainties sit at the decision boundary of the rule: (rule - 1, rule, rule + 1) x 10^-k
+                bool at_boundary = !extreme && su > 0 && rule >= 2 && r.chance(1, 3);
+                if (at_boundary) { int k = (int) r.range(-1, 4); su = ((double) rule + (double) r.range(-1, 1)) * std::pow(10.0, -k); g_stats.inc("value.autoinit_su_at_rule_boundary"); }
+                rc = fe.call("cif_value_autoinit_numb", [&]() { return cif_value_autoinit_numb(t.v, val, su < 0 ? su : (su > 0 ? su : 0.0), rule); });
+                if (rc == CIF_OK && !bad_arg && !extreme && su > 0 && rule >= 6) {
+                    // "the largest scale is chosen such that the significant digits of the rounded su, interpreted as an integer, are less than
+                    // or equal to the su_rule": D = the digits in parentheses, u = the unit of the last digit kept (recorded su / D)
+                    MValue sv = snapshot_value(t.v); size_t a = sv.text.find(u'('), b = sv.text.find(u')');
+                    if (a != ustr::npos && b != ustr::npos && b > a + 1 && sv.has_num) {
+                        double D = 0; for (size_t i = a + 1; i < b; ++i) D = D * 10 + (double) (sv.text[i] - u'0');
+                        if (D > 0 && sv.su > 0) {
+                            double u = sv.su / D, here = su / u, finer = su * 10.0 / u;
+                            if (D > (double) rule) violate("number", "autoinit_numb:su_digits_exceed_rule", strprintf("cif_value_autoinit_numb(%.17g, %.17g, %u) produced %s: su digits %g exceed the rule", val, su, rule, u8(sv.text).c_str(), D));
+                            if (std::fabs(here - D) > 0.5 + 1e-6 * D) violate("number", "autoinit_numb:su_not_rounded", strprintf("cif_value_autoinit_numb(%.17g, %.17g, %u) produced %s: the su digits are not the su rounded to the last digit kept (%.6f)", val, su, rule, u8(sv.text).c_str(), here));
+                            if (finer < (double) rule + 0.5 - 1e-6 * (double) rule) violate("number", "autoinit_numb:scale_not_largest", strprintf("cif_value_autoinit_numb(%.17g, %.17g, %u) produced %s although one more digit would still satisfy the rule (su digits would be %.6f <= %u)", val, su, rule, u8(sv.text).c_str(), finer, rule));
+                        }
+                    }
+                }
+            }
             cover(o.k, rc, (uint64_t) t.m->kind * 2 + (bad_arg ? 1 : 0));
             if (bad_arg) { expect(VN[o.k], rc, {CIF_ARGUMENT_ERROR}); resync(t.root); return; }
             if (extreme && rc != CIF_OK) { if (!rc_defined(rc)) violate("rc", strprintf("%s:undefined", VN[o.k]), strprintf("%s returned the undefined code %d", VN[o.k], rc)); g_stats.inc("value.extreme_number_refused"); resync(t.root); return; }
